@@ -170,7 +170,9 @@ def run(out: Outcome, drv, prop):
     fns, nq, nt = PLAN[prop]
     n = nq if out.tier == "quick" else nt
     out.rule = (f"seeded boundary-focused generator per function ({', '.join(fns)}; values on a dyadic lattice placed on/around "
-                f"every threshold, lengths 0..12 incl. 0,1,2,3, missing values, malformed parameter stream) plus a small "
+                f"every threshold, lengths 0..12 incl. 0,1,2,3, missing values, malformed parameter stream; per function four LONG series — a short case repeated "
+                f"cyclically to just past 4096 / 8192 / 16384 / 20000 positions, thorough also 33000 / 66000; ~500 / ~1000 for attenuated_signal_test, "
+                f"none for climatology_test) plus a small "
                 f"bounded-exhaustive core (C10: also timestamps with a fractional second, elapsed time cut to whole seconds); a case is non-trivial when its observed flag vector has >= 2 distinct values or the call "
                 f"raised; distinct by SHA-1 of the canonical logical case")
     if prop == "C08":
